@@ -166,7 +166,8 @@ func (v *inputFieldDefaultInjectionVisitor) processObjectOrListInput(fieldType i
 	if !found {
 		return defaultValue, false, nil
 	}
-	if node.Kind == ast.NodeKindScalarTypeDefinition {
+	if node.Kind != ast.NodeKindInputObjectTypeDefinition {
+		// scalars have no fields; any other kind is not an input type at all (the validator reports it)
 		return defaultValue, false, nil
 	}
 	finalVal := defaultValue
